@@ -37,7 +37,7 @@ ASSUMPTIONS = common.BASE_ASSUMPTIONS + [
     "a well-formed input may still raise UBXMessageError (unknown type for the mode); that is not judged here",
 ]
 REAL_VS_STUB = common.REAL_VS_STUB
-QUICK_RUNS = 6000
+QUICK_RUNS = 36000
 EXPECTED_PROBES = {
     t: ["fault_sub", "fault_ins", "fault_del", "fault_trunc", "fault_reseal", "accepted_well_formed_after_fault", "zero_length_frame_insertions", "rejected_UBXParseError", "valnone_cases", "stream_cases", "stale_length_valid_checksum", "checksum_field_values"]
     for t in ("quick", "thorough")
